@@ -6,6 +6,10 @@
 # meta.json, expect exit 1 + a VIOLATION line, and always revert. Results: seeded/RESULTS.md.
 set -u
 cd /verif
+# evidence and replay artefacts of these runs (against deliberately broken trees) go to a scratch
+# directory, never into /verif/evidence
+export VERIF_OUT=${VERIF_OUT:-/tmp/verif_seed_out}
+mkdir -p $VERIF_OUT
 names=("$@")
 [ ${#names[@]} -eq 0 ] && names=($(ls seeded | grep -v RESULTS.md))
 out=seeded/RESULTS.md
